@@ -19,6 +19,7 @@ macro_rules! registry {
 registry! {
     "C01" => c01,
     "C02" => c02,
+    "C03" => c03,
     "C04" => c04,
     "C05" => c05,
     "C10" => c10,
